@@ -500,6 +500,12 @@ impl<'a, Input: InputIndexer> MatchAttempter<'a, Input> {
         _dir: Dir,
     ) -> bool {
         loop {
+            #[cfg(feature = "verif-hooks")]
+            crate::verif::step(
+                crate::verif::KIND_BACKTRACK_POP,
+                Dir::FORWARD,
+                self.bts.len(),
+            );
             // We always have a single Exhausted instruction backstopping our stack,
             // so we do not need to check for empty bts.
             debug_assert!(!self.bts.is_empty(), "Backtrack stack should not be empty");
@@ -656,6 +662,12 @@ impl<'a, Input: InputIndexer> MatchAttempter<'a, Input> {
                     };
                 }
 
+                #[cfg(feature = "verif-hooks")]
+                crate::verif::step(
+                    crate::verif::insn_kind(re.insns.iat(ip)),
+                    Dir::FORWARD,
+                    self.bts.len(),
+                );
                 match re.insns.iat(ip) {
                     &Insn::Char(c) => {
                         let m = match <<Input as InputIndexer>::Element as ElementType>::try_from(c)
